@@ -992,6 +992,19 @@ func (e *Eng) execGo(st *State, s *ast.GoStmt) *State {
 		args = append(args, e.eval(st, a))
 	}
 	if lit == nil {
+		// anchored preconditions of the spawned call are checked at the spawn point
+		if cls, text := e.anchorClauses(s.Call); len(cls) > 0 {
+			env := e.specEnvFromState(st)
+			for i, a := range args {
+				env[fmt.Sprintf("arg%d", i)] = a
+			}
+			for _, c := range cls {
+				if c.Kind == "requires" {
+					g := e.evalSpec(st, c.Expr, env, e.oldEnv)
+					e.oblige(st, "at", "go "+shortText(text)+" requires "+c.Src, g.T, s.Pos())
+				}
+			}
+		}
 		e.gap("go statement on a non-literal function: effects havocked, spawn rule not checked (%s)", e.src(s.Call))
 		key, _, _ := calleeKey(e.info, s.Call)
 		if key != "" {
